@@ -230,8 +230,8 @@ GROUPS = {}
 for _g, _ms in {'addsub': 'add adc sub sbb cmp inc dec neg xadd cmpxchg cmps scas', 'logic': 'and or xor test not',
                 'shift': 'shl shr sar', 'rot': 'rol ror', 'rotc': 'rcl rcr', 'shd': 'shld shrd', 'mul': 'mul imul', 'div': 'div idiv',
                 'bit': 'bt bts btr btc', 'scan': 'bsf bsr', 'ext': 'cbw cwde cwd cdq', 'flagop': 'clc stc cmc cld std lahf sahf',
-                'setcc': 'setcc', 'cmovcc': 'cmovcc', 'jcc': 'jcc', 'stack': 'push pop pushad popad', 'string': 'movs lods stos',
-                'flow': 'jmp jecxz loop loope loopne call ret', 'mov': 'mov movzx movsx xchg lea'}.items():
+                'setcc': 'setcc', 'cmovcc': 'cmovcc', 'jcc': 'jcc', 'stack': 'push pop pushad popad leave enter', 'string': 'movs lods stos',
+                'flow': 'jmp jecxz loop loope loopne call ret', 'mov': 'mov movzx movsx xchg lea bswap xlat'}.items():
     for _m in _ms.split():
         GROUPS[_m] = _g
 
@@ -244,7 +244,7 @@ def run(tier, chk):
     total = len(insts)
     if quick:
         insts = [i for i in insts if i['q']]
-    recs, excl = build_records(insts, 8 if quick else 40, chk.seed)
+    recs, excl = build_records(insts, 8 if quick else 64, chk.seed)
     verdicts, ncmp, nflt = judge(chk, recs, rnd)
     chk.cov['evaluations'] = ncmp
     chk.cov['faulting_states_skipped'] = nflt
